@@ -548,19 +548,21 @@ Lemma pavm_word rec w : wf_word w = true -> forallb float_charset w = false ->
   parse_arg_value_matcher rec w = Ok (MWrap WLabel (str_matcher w)).
 Proof.
   intros H Hfc. destruct (wf_word_inv w H) as [c [r [E [Hc [Hi [Hnil Hinf]]]]]].
+  assert (CF : is_digit c = false /\ c <> 45 /\ c <> 43 /\ c <> 91 /\ c <> 42 /\ c <> 34) by (clear - Hc; ccx).
+  destruct CF as [C1 [C2 [C3 [C4 [C5 C6]]]]].
   assert (Hasc := ident_all_ascii w Hi).
   assert (Hst := strip_nonblank_all w (ident_nonblank w Hi)).
   unfold parse_arg_value_matcher.
-  assert (B : bracketed w = false) by (rewrite E; apply bracketed_ne; ccx). rewrite B.
+  assert (B : bracketed w = false) by (rewrite E; apply bracketed_ne; exact C4). rewrite B.
   assert (I : parse_int_matcher w = Raise RuntimeError []).
-  { apply pim_of_value_error; [rewrite E; apply str_eqb_cons_ne; ccx|rewrite E; reflexivity|].
-    apply (py_int_bad w c r); try assumption; ccx. }
+  { apply pim_of_value_error; [rewrite E; apply str_eqb_cons_ne; exact C5|rewrite E; reflexivity|].
+    apply (py_int_bad w c r); assumption. }
   rewrite I. cbn [bind or_else].
   assert (F : parse_float_matcher w = Raise RuntimeError []).
-  { apply pfm_of_value_error. apply (py_float_bad w c r); try assumption; ccx. }
+  { apply pfm_of_value_error. apply (py_float_bad w c r); assumption. }
   rewrite F. cbn [bind or_else].
   assert (S : parse_string_matcher w = Raise RuntimeError []).
-  { unfold parse_string_matcher. rewrite E. rewrite starts_with_1_ne by ccx. reflexivity. }
+  { unfold parse_string_matcher. rewrite E. rewrite starts_with_1_ne by congruence. reflexivity. }
   rewrite S. cbn [bind or_else]. rewrite Hnil.
   rewrite ptm_word by (try exact Hi; rewrite E; discriminate). reflexivity.
 Qed.
